@@ -11,15 +11,15 @@ SrcChoices(rs) == {[kind |-> "good", recs |-> rs, keep |-> Len(rs)], [kind |-> "
 Layouts == {<<x, y, z>> : x \in SrcChoices(R1), y \in SrcChoices(R2), z \in SrcChoices(R3)}
 Cfgs == IF Small
         THEN [skip : {0, 1}, cnt : {0, 2}, sel : {"none", "other_y", "n_ge_other"}, fields : {<<>>, <<"t2", "n", "t1">>}, excl : {<<>>, <<"t1">>},
-              override : {FALSE}, mts : BOOLEAN, split : {0, 2}]
+              override : {"no"}, mts : BOOLEAN, split : {0, 2}]
         ELSE [skip : 0..2, cnt : {0, 1, 3}, sel : Sels, fields : {<<>>, <<"n">>, <<"other", "n", "bogus">>, <<"t2", "n", "t1">>}, excl : {<<>>, <<"s">>, <<"t1">>},
-              override : BOOLEAN, mts : BOOLEAN, split : {0, 2}]
+              override : {"no", "set", "empty"}, mts : BOOLEAN, split : {0, 2}]
 VARIABLES lay, cfg
 vars == <<lay, cfg>>
 Init == lay \in Layouts /\ cfg \in Cfgs
 Next == UNCHANGED vars
 Spec == Init /\ [][Next]_vars
-Plain == [skip |-> 0, cnt |-> 0, sel |-> "none", fields |-> <<>>, excl |-> <<>>, override |-> FALSE, mts |-> FALSE, split |-> 0]
+Plain == [skip |-> 0, cnt |-> 0, sel |-> "none", fields |-> <<>>, excl |-> <<>>, override |-> "no", mts |-> FALSE, split |-> 0]
 Ids(q) == [i \in DOMAIN q |-> q[i].id]
 \* with no options rdump is the identity on the readable records
 Identity == Ids(Pipeline(lay, Plain)) = Ids(Concat(lay)) /\ \A i \in DOMAIN Pipeline(lay, Plain) : Pipeline(lay, Plain)[i].fields = FieldsOf(Concat(lay)[i].d)
